@@ -323,7 +323,8 @@ Definition spec_ok (k : case) : bool :=
       if rectb m && odd_pos kh && odd_pos kw then rmask_eqb out (blur_spec m kh kw)
       else negb (rectb m && (0 <? kh) && (0 <? kw)) || rmask_eqb out (Raise MaskException)
   | KBlurGrid m kh kw g out =>
-      negb (rectb m && odd_pos kh && odd_pos kw) || rgrid_eqb out (blur_grid_spec m kh kw g)
+      if rectb m && odd_pos kh && odd_pos kw then rgrid_eqb out (blur_grid_spec m kh kw g)
+      else negb (rectb m && (0 <? kh) && (0 <? kw)) || rgrid_eqb out (Raise MaskException)
   | KUtil m total edge border buffer buffed =>
       negb (rectb m) ||
       ((total =? Z.of_nat (length edge)) && edge_spec_ok m edge && zl_eqb border (border_of m edge)
